@@ -221,6 +221,31 @@ def shard_colour_values(args):
     return acc.export()
 
 
+def shard_many_params(args):
+    """One numeric CSI sequence with 1..120 parameters (supported SGR codes, unsupported codes, cursor movement, erasing; 7-bit and 8-bit
+    introducer) between two pieces of text: removed exactly, whatever the count; and lone surrogates / other unusual ordinary
+    characters around sequences."""
+    tier, seed, idx = args
+    acc = Acc(seed=seed)
+    k = 0
+    for n in list(range(1, 121)) + [200, 500, 1000]:
+        for codes, final in (((1, 4, 31, 44), "m"), ((99, 21, 58), "m"), ((1, 2), "H"), ((2,), "K"), ((0,), "m"), ((38, 5, 1), "m")):
+            for intro in ("\x1b[", "\x9b"):
+                k += 1
+                if k % 8 != idx:
+                    continue
+                ps = ";".join(str(codes[j % len(codes)]) for j in range(n))
+                s = "ab" + intro + ps + final + "cd\nef"
+                case = {"s": s if n <= 12 else None, "parameters": n, "codes": list(codes), "final": final, "introducer": intro}
+                acc.case(True, key=("np", n, codes, final, intro), sample=case)
+                check(acc, s, dict(case, s=s if n <= 40 else s[:60] + "..."))
+    if idx == 0:
+        for t in ("\ud800", "a\udfffb", "\x1b[31m\ud800\x1b[0m", "x\udc80\x1b[1my", "\ud83d\x1b[4m\ude00", "\x1b[32m\x00\x7f\x80\x9c\x9d\xa0\xad\x1b[m", "\u2028\x1b[1m\u2029\ufeff\ufffe\U0010ffff"):
+            acc.case(True, key=("odd", t), sample={"s": t})
+            check(acc, t, {"s": t})
+    return acc.export()
+
+
 def long_offsets(tier):
     """Every offset up to 2 600 (thorough 8 000), then the neighbourhood (-3..+2) of every multiple of 500 up to 70 000."""
     top = 8000 if tier == "thorough" else 2600
@@ -251,6 +276,8 @@ def run(ctx):
     rep = Report()
     for d in ctx.pmap(shard_long, [(ctx.tier, ctx.seed, i, 48) for i in range(48)]):
         rep.merge(d, "long_text_offset_sweep")
+    for d in ctx.pmap(shard_many_params, [(ctx.tier, ctx.seed, i) for i in range(8)]):
+        rep.merge(d, "sequences_with_1_to_1000_parameters_and_odd_characters")
     for d in ctx.pmap(shard_colour_values, [(ctx.tier, ctx.seed, i) for i in range(16)]):
         rep.merge(d, "extended_colour_values")
     for d in ctx.pmap(shard_tokens3, [(ctx.tier, ctx.seed, i) for i in range(len(TOKENS3))]):
